@@ -115,12 +115,15 @@ def check_uses_right_declaration(case):
         if is_mc:
             claim = [e for e in itf['elem']['events'] if e['name'] == mc['claim']][0]
             enum = lookup(declarations(sm['model']), claim['ret'], itf['fqn'])[0]
-            want = f'if (r == ::{"::".join(enum["fqn"])}::{mc["grant"][0]}) {member}.Select(identifier);'
-            cmp_lines = [squash(l) for l in src.split('\n') if 'Select(identifier)' in l]
-            if not cmp_lines:
+            # layout tolerant: `if (<var> == <qualified value>)` [`{`] `<member>.Select(identifier);`
+            want = f'::{"::".join(enum["fqn"])}::{mc["grant"][0]}'
+            flat = squash(src)
+            found = re.findall(r'if\(\w+==((?:::)?[A-Za-z_][\w:]*)\)\{?' +
+                               re.escape(squash(f'{member}.Select(identifier);')), flat)
+            if not found:
                 INCONCLUSIVE['claim-comparison-not-found-in-text'] += 1
-            elif squash(want) not in cmp_lines:
-                raise Fail(f'granting reply comparison is {cmp_lines}, reference says `{want}`',
+            elif any(f != want for f in found):
+                raise Fail(f'granting reply is compared with {found}, reference says `{want}`',
                            'claim-enum')
 
 
